@@ -110,6 +110,10 @@ type dsEnv struct {
 	pos   map[int64]int
 	heur  int // 0 nil (NullHeuristic), 1 discrete metric
 	fresh bool
+	// unweighted: the world is a simple.DirectedGraph (no Weight method), so
+	// the planner reads edge costs through path.UniformCost: every existing
+	// edge costs 1, operations insert or remove single directed edges.
+	unweighted bool
 }
 
 func discrete(x, y graph.Node) float64 {
@@ -132,7 +136,8 @@ type dsState struct {
 	has  [dsN][dsN]bool
 	w    [dsN][dsN]float64
 	g    *simple.WeightedDirectedGraph
-	view ordWDir
+	ug   *simple.DirectedGraph // unweighted worlds
+	view graph.Graph
 	d    *dynamic.DStarLite
 }
 
@@ -141,6 +146,20 @@ func (e *dsEnv) newModel() detModel {
 }
 
 func (e *dsEnv) start() *dsState {
+	if e.unweighted {
+		st := &dsState{e: e, ug: simple.NewDirectedGraph()}
+		for _, id := range e.ids {
+			st.ug.AddNode(simple.Node(id))
+		}
+		for _, ed := range e.w.edges {
+			st.has[ed[0]][ed[1]] = true
+			st.w[ed[0]][ed[1]] = 1
+			st.ug.SetEdge(simple.Edge{F: simple.Node(e.ids[ed[0]]), T: simple.Node(e.ids[ed[1]])})
+		}
+		st.view = ordDir{ordBase{g: st.ug, pos: e.pos}, st.ug}
+		st.d = dynamic.NewDStarLite(simple.Node(e.ids[e.w.s]), simple.Node(e.ids[e.w.t]), st.view, e.h(), e.newModel())
+		return st
+	}
 	st := &dsState{e: e, g: simple.NewWeightedDirectedGraph(0, math.Inf(1))}
 	for _, id := range e.ids {
 		st.g.AddNode(simple.Node(id))
@@ -170,7 +189,17 @@ func (st *dsState) apply(o dsOp) bool {
 	edges := make([]graph.Edge, len(o.changes))
 	ids := st.e.ids
 	for i, c := range o.changes {
-		if math.IsInf(c.w, 1) {
+		if st.e.unweighted {
+			if math.IsInf(c.w, 1) {
+				st.has[c.u][c.v] = false
+				st.w[c.u][c.v] = 0
+				st.ug.RemoveEdge(ids[c.u], ids[c.v])
+			} else {
+				st.has[c.u][c.v] = true
+				st.w[c.u][c.v] = 1
+				st.ug.SetEdge(simple.Edge{F: simple.Node(ids[c.u]), T: simple.Node(ids[c.v])})
+			}
+		} else if math.IsInf(c.w, 1) {
 			st.has[c.u][c.v] = false
 			st.w[c.u][c.v] = 0
 			st.g.RemoveEdge(ids[c.u], ids[c.v])
@@ -313,6 +342,7 @@ func genDStar(g *vlib.G) {
 	type cfg struct {
 		world, heur, idk, depth int
 		weights                 []float64
+		unweighted              bool
 	}
 	var cfgs []cfg
 	nw := vlib.Pick(g, 6, len(dsWorlds))
@@ -323,23 +353,31 @@ func genDStar(g *vlib.G) {
 				// stronger heuristics are exercised by the group "dstar-heur"
 				continue
 			}
-			cfgs = append(cfgs, cfg{w, heur, (w + heur) % 3, 3, dsWeights})
+			cfgs = append(cfgs, cfg{w, heur, (w + heur) % 3, 3, dsWeights, false})
 		}
+	}
+	// unweighted directed worlds (UniformCost): one-way insertions and
+	// removals of every ordered pair, batches; depth 3 (thorough: 4 on one).
+	for w := 0; w < nw; w++ {
+		cfgs = append(cfgs, cfg{w, w % 2, (w + 2) % 3, 3, []float64{1, inf}, true})
+	}
+	if thorough {
+		cfgs = append(cfgs, cfg{0, 0, 1, 4, []float64{1, inf}, true})
 	}
 	if thorough {
 		// depth 4 with the full alphabet on three worlds, depth 5 with the
 		// cost alphabet {1, +Inf} and no batches on one.
 		for w := 0; w < 3; w++ {
-			cfgs = append(cfgs, cfg{w, w % 2, (w + 1) % 3, 4, dsWeights})
+			cfgs = append(cfgs, cfg{w, w % 2, (w + 1) % 3, 4, dsWeights, false})
 		}
-		cfgs = append(cfgs, cfg{1, 0, 2, 5, []float64{1, inf}})
+		cfgs = append(cfgs, cfg{1, 0, 2, 5, []float64{1, inf}, false})
 	}
 	for _, cf := range cfgs {
 		cf := cf
 		alpha := dsAlphabet(cf.heur == 0, cf.weights, cf.depth < 5)
 		w := &dsWorlds[cf.world]
 		ids := idMap(cf.idk, dsN)
-		e := &dsEnv{w: w, ids: ids, idx: map[int64]int{}, pos: rank(ids, cf.world%3), heur: cf.heur, fresh: true}
+		e := &dsEnv{w: w, ids: ids, idx: map[int64]int{}, pos: rank(ids, cf.world%3), heur: cf.heur, fresh: true, unweighted: cf.unweighted}
 		for i, id := range ids {
 			e.idx[id] = i
 		}
@@ -361,6 +399,9 @@ func genDStar(g *vlib.G) {
 				return
 			}
 			key := fmt.Sprintf("%s h=%d ids=%s depth=%d nw=%d:", w.name, cf.heur, idMapNames[cf.idk], cf.depth, len(cf.weights))
+			if cf.unweighted {
+				key = "unweighted " + key
+			}
 			for _, o := range prefix {
 				key += " " + o.String() + ";"
 			}
